@@ -22,6 +22,98 @@ O_RESULT, O_REMOTE, O_VIOL, O_DEAD, O_SEND, O_LOCAL, O_OTHER = 1, 2, 3, 4, 5, 6,
 ONAME = {1: "OResult", 2: "ORemoteError", 3: "OViolation", 4: "ODeadRef", 5: "OSendFail", 6: "OLocal", 7: "OOther"}
 
 
+# ------------------------------------------------------------------ reasons a connection can end with
+# The specification the oracle judges against is written out here and NOT read from foolscap.broker: "all connection-lost
+# errors are mapped to DeadReferenceError" = ConnectionLost, ConnectionDone, OpenSSL's SSL.Error and every subclass of them;
+# any other reason handed to shutdown()/connectionLost() reaches the caller unchanged.
+def _lost_bases():
+    from twisted.internet import error
+    out = [("ConnectionLostC", error.ConnectionLost), ("ConnectionDoneC", error.ConnectionDone)]
+    try:
+        from OpenSSL import SSL
+        out.append(("SSLErrorC", SSL.Error))
+    except ImportError:
+        pass
+    return out
+
+
+LOST_BASES = _lost_bases()
+
+
+class AdHocLost(LOST_BASES[0][1]):
+    """a transport-specific subclass, e.g. ConnectionResetByPeer"""
+
+
+class AdHocDone(LOST_BASES[1][1]):
+    pass
+
+
+class AdHocDeep(AdHocLost):
+    """subclass of a subclass"""
+
+
+class AdHocUnrelated(Exception):
+    pass
+
+
+def _family():
+    """name -> (class, kind, base name);  kind in listed / sub / unrelated"""
+    import inspect
+    from twisted.internet import error
+    fam = {}
+    for bname, base in LOST_BASES:
+        fam[base.__name__ if bname != "SSLErrorC" else "SSL.Error"] = (base, "listed", bname)
+    mods = [error]
+    try:
+        from OpenSSL import SSL
+        mods.append(SSL)
+
+        class AdHocSSL(SSL.Error):
+            pass
+        fam["AdHocSSL"] = (AdHocSSL, "sub", "SSLErrorC")
+    except ImportError:
+        pass
+    for m in mods:
+        for n, c in sorted(vars(m).items()):
+            if inspect.isclass(c) and issubclass(c, BaseException):
+                for bname, base in LOST_BASES:
+                    if issubclass(c, base) and c is not base:
+                        try:
+                            c()
+                        except Exception:
+                            continue
+                        fam.setdefault(("SSL." if m is not error else "") + n, (c, "sub", bname))
+                        break
+    fam["AdHocLost"] = (AdHocLost, "sub", "ConnectionLostC")
+    fam["AdHocDone"] = (AdHocDone, "sub", "ConnectionDoneC")
+    fam["AdHocDeep"] = (AdHocDeep, "sub", "ConnectionLostC")
+    for c in (RuntimeError, ValueError, KeyError, error.ConnectionRefusedError, error.TimeoutError, error.ConnectError,
+              error.ConnectionClosed, AdHocUnrelated):
+        if not any(issubclass(c, b) for _, b in LOST_BASES):
+            fam[c.__name__] = (c, "unrelated", None)
+    return fam
+
+
+REASONS = _family()
+REASON_NAMES = sorted(REASONS)
+
+
+def reason_failure(name):
+    return failure.Failure(REASONS[name][0]())
+
+
+def classify_reason(why):
+    """-> (kind, base) of an arbitrary Failure, by the written-out specification (issubclass, independent of the code)"""
+    t = why.type
+    for bname, base in LOST_BASES:
+        if t is base:
+            return ("listed", bname)
+    for bname, base in LOST_BASES:
+        if isinstance(t, type) and issubclass(t, base):
+            return ("sub", bname)
+    return ("unrelated", None)
+
+
 def coarse(code):
     """what can be told apart on the real Deferred without knowing the context: callback / DeadReferenceError / other errback"""
     return code if code in (O_RESULT, O_DEAD) else 0
@@ -122,6 +214,9 @@ class Recorder:
         self.in_turn = None
         self.errors = []         # harness-level inconsistencies
         self.is_twoway = []      # per handle
+        self.fire_types = []     # per handle: exception class of every errback (None for a callback)
+        self.finish_why = None   # the Failure given to the finish() that disconnected the broker
+        self.via_turn = []       # handles failed by a queued abandonAllRequests entry
 
     # -- snapshots
     def snap(self):
@@ -154,6 +249,7 @@ class Recorder:
         idx = self.begin(None)
         h = len(self.fires)
         self.fires.append([])
+        self.fire_types.append([])
         self.is_twoway.append(twoway)
         self.window, self.window_added = h, False
         try:
@@ -173,29 +269,33 @@ class Recorder:
 
     def watch(self, d, h):
         """record every firing of an already created Deferred (maybeDeferred's) without consuming the result"""
-        fl = self.fires[h]
+        fl, ft = self.fires[h], self.fire_types[h]
 
         def cb(r):
             fl.append(O_RESULT)
+            ft.append(None)
             return r
 
         def eb(f):
             fl.append(classify(f))
+            ft.append(f.type)
             return f
         d.addCallbacks(cb, eb)
 
     def watch_attempts(self, d, h):
         """record every *invocation* of d.callback / d.errback (a second one would raise AlreadyCalledError inside
         Twisted and would otherwise be invisible), at the moment it happens"""
-        fl = self.fires[h]
+        fl, ft = self.fires[h], self.fire_types[h]
         o_cb, o_eb = d.callback, d.errback
 
         def callback(res):
             fl.append(O_RESULT)
+            ft.append(None)
             return o_cb(res)
 
         def errback(f=None):
             fl.append(classify(f) if f is not None else O_OTHER)
+            ft.append(f.type if f is not None else None)
             return o_eb(f)
         d.callback, d.errback = callback, errback
 
@@ -272,12 +372,15 @@ def recording(A):
             code = classify(why)
             op = ("Fail", h, {O_DEAD: O_DEAD, O_VIOL: O_SEND, O_OTHER: O_OTHER}[code])
         idx = rec.begin(op)
+        n0 = len(rec.fires[h])
         try:
             return o_fail(self, why)
         except KeyError:
             rec.raised += 1
             raise
         finally:
+            if op[0] == "Turn" and len(rec.fires[h]) > n0:
+                rec.via_turn.append(h)      # this request was really retired by abandonAllRequests
             rec.end(idx)
 
     def eventually(cb, *a, **kw):
@@ -319,8 +422,10 @@ def recording(A):
         return req
 
     def finish(why):
-        lost = bool(why.check(ConnectionDone, ConnectionLost))
-        idx = rec.begin(("Finish", O_DEAD if lost else O_OTHER))
+        kind, base = classify_reason(why)
+        if not A.disconnected and rec.finish_why is None:
+            rec.finish_why = why
+        idx = rec.begin(("Finish", kind, base))
         try:
             return o_finish(why)
         finally:
@@ -409,7 +514,8 @@ LOSS_MODES = ["lost", "lost-A-only", "shutdown-then-lost", "shutdown-other-then-
               "garbage-then-lost"]
 
 
-def scenario(calls, cutA, cutB, chunkA=7, chunkB=7, loss="lost", stall_release="after", after_calls=("ok", "oneway")):
+def scenario(calls, cutA, cutB, chunkA=7, chunkB=7, loss="lost", stall_release="after", after_calls=("ok", "oneway"),
+             reason=None):
     """A = caller, B = callee.  Issue `calls`, deliver at most cutA bytes A->B and cutB bytes B->A in the given
     chunk sizes (alternating), then lose the connection in mode `loss`; afterwards the callee's late Deferreds fire,
     stalled arguments are released / failed and `after_calls` are issued on the dead reference.
@@ -455,17 +561,22 @@ def scenario(calls, cutA, cutB, chunkA=7, chunkB=7, loss="lost", stall_release="
                 E.turn()
         totalA, totalB = len(tA.out), len(tB.out)
         done = failure.Failure(ConnectionDone())
+        # `why` is the reason of the event that ends the connection for the caller: any member of REASONS
+        if reason is None:
+            reason = {"lost-A-only": "ConnectionLost", "shutdown-then-lost": "ConnectionLost",
+                      "shutdown-other-then-data": "RuntimeError"}.get(loss, "ConnectionDone")
+        why = reason_failure(reason)
         if loss == "lost":
-            A.connectionLost(done)
+            A.connectionLost(why)
             B.connectionLost(done)
         elif loss == "lost-A-only":
-            A.connectionLost(failure.Failure(ConnectionLost()))
+            A.connectionLost(why)
         elif loss == "lost-twice":
-            A.connectionLost(done)
+            A.connectionLost(why)
             A.finish(done)
             B.connectionLost(done)
         elif loss == "shutdown-then-lost":
-            A.shutdown(failure.Failure(ConnectionLost("shutdown")))
+            A.shutdown(why)
             A.connectionLost(done)
             B.connectionLost(done)
         elif loss == "timeout":
@@ -478,12 +589,12 @@ def scenario(calls, cutA, cutB, chunkA=7, chunkB=7, loss="lost", stall_release="
             A.dataReceived(b"\x00" * 370)
             if not tA.closed and sentB in (0, len(tB.out)):      # only at a token boundary is it certainly a violation
                 rec.errors.append("protocol violation did not make the broker close its transport")
-            A.connectionLost(done)
+            A.connectionLost(why)
             B.connectionLost(done)
         elif loss == "shutdown-other-then-data":
             # local shutdown with a reason that is not a lost connection; whatever the peer had already sent
             # is still delivered before the queued failures run
-            A.shutdown(failure.Failure(RuntimeError("going away")))
+            A.shutdown(why)
             rest = bytes(tB.out[sentB:])
             if rest:
                 A.dataReceived(rest)
@@ -508,7 +619,8 @@ def scenario(calls, cutA, cutB, chunkA=7, chunkB=7, loss="lost", stall_release="
         rec.flush_open()
         waiting = list(A.waitingForAnswers.keys())
     return dict(trace=rec.trace, fires=rec.fires, twoway=twoway, waiting=waiting, totalA=totalA, totalB=totalB,
-                errors=rec.errors, evq=list(rec.evq), raised=rec.raised, marksA=list(tA.marks), marksB=list(tB.marks))
+                errors=rec.errors, evq=list(rec.evq), raised=rec.raised, marksA=list(tA.marks), marksB=list(tB.marks),
+                fire_types=rec.fire_types, via_turn=list(rec.via_turn), finish_why=rec.finish_why)
 
 
 RETURNS = ("ok", "big", "typed_ok", "mixed_dict")
@@ -537,6 +649,32 @@ def judge(r):
         return "table-not-empty", "waitingForAnswers still holds %r after connection loss and quiescence" % (r["waiting"],)
     if r["evq"]:
         return "queued-fail-never-ran", "queued req.fail never ran: %r" % (r["evq"],)
+    return judge_reason(r)
+
+
+def judge_reason(r):
+    """requests abandoned by finish(why): DeadReferenceError for every lost-connection reason (listed classes and all their
+    subclasses), the unchanged reason otherwise"""
+    why = r.get("finish_why")
+    if why is None:
+        return None
+    kind, base = classify_reason(why)
+    for h in r["via_turn"]:
+        ft = r["fire_types"][h]
+        if len(ft) != 1:
+            continue
+        got = ft[0]
+        if kind in ("listed", "sub"):
+            if got is not DeadReferenceError:
+                return ("lost-reason-not-DeadReferenceError",
+                        "the connection ended with %s (%s of %s, a lost-connection reason) but the pending callRemote #%d "
+                        "errbacked with %s instead of DeadReferenceError"
+                        % (why.type.__name__, "subclass" if kind == "sub" else "exactly", base[:-1], h,
+                           getattr(got, "__name__", got)))
+        elif got is not why.type:
+            return ("other-reason-not-passed-through",
+                    "the connection was shut down with %s (not a lost-connection reason) but the pending callRemote #%d "
+                    "errbacked with %s" % (why.type.__name__, h, getattr(got, "__name__", got)))
     return None
 
 
@@ -545,7 +683,7 @@ def api_sequence(ops):
     """Executes an abstract op list directly against a real Broker / real PendingRequests:
        ("Call", kind) -> callRemote / callRemoteOnly;  ("Answer", rid) / ("Error", rid) / ("AnswerViolation", rid) ->
        what the unslicers do (getRequest then complete / fail);  ("Complete", h) / ("Fail", h, o) on the request
-       object;  ("Finish", o);  ("Turn",) runs the oldest queued eventual-send.
+       object;  ("Finish", reason name);  ("Turn",) runs the oldest queued eventual-send.
        -> (trace actually recorded, fires, final table)"""
     A, B, tA, tB, t, t2, rr, rr_typed = make_pair()
     q = E.ev._theSimpleQueue
@@ -601,7 +739,7 @@ def api_sequence(ops):
                 except Exception:
                     pass
             elif op[0] == "Finish":
-                why = failure.Failure(ConnectionDone()) if op[1] == O_DEAD else failure.Failure(RuntimeError("shutdown"))
+                why = reason_failure(op[1])
                 if len(rec.trace) % 2:
                     A.finish(why)
                 else:
@@ -626,7 +764,8 @@ def api_sequence(ops):
                 raise KeyError(op)
         rec.flush_open()
         waiting = list(A.waitingForAnswers.keys())
-    return dict(trace=rec.trace, fires=rec.fires, waiting=waiting, errors=rec.errors, evq=list(rec.evq), raised=rec.raised)
+    return dict(trace=rec.trace, fires=rec.fires, waiting=waiting, errors=rec.errors, evq=list(rec.evq), raised=rec.raised,
+                fire_types=rec.fire_types, via_turn=list(rec.via_turn), finish_why=rec.finish_why)
 
 
 # ------------------------------------------------------------------ real Tubs on the in-memory network
@@ -694,7 +833,7 @@ def tub_scenario(rng, event, nsteps, log_remote=False, mix=("ok", "boom", "late"
                 if mine and not e.lost:
                     e.lost = True
                     e.closed = True
-                    e.protocol.connectionLost(failure.Failure(ConnectionLost()))
+                    e.protocol.connectionLost(reason_failure(rng.choice(REASON_NAMES)))
         E.turn()
         A.getReference(fb).addBoth(lambda r: got.__setitem__("a2", r))
     elif event == "none":
